@@ -23,6 +23,33 @@ def ascii? (t : Term) : Option Bytes := do
   let b ← asBytes? t
   if b.all (· < 128) then some b else none
 
+/-! attribute data -/
+
+def fill (len seed : Nat) : Bytes := (List.range len).map (fun i => (seed + 31 * i) % 251)
+
+def seg? : Term → Option Bytes
+  | .list [.atom "segr", ty, cnt, base, step] => do
+      let ty ← natLe? ty 255
+      let cnt ← natLe? cnt 255
+      let base ← natLe? base U32
+      let step ← natLe? step U32
+      pure ([ty, cnt] ++ (List.range cnt).flatMap (fun i => be32 ((base + i * step) % 4294967296)))
+  | .list (ty :: asns) => do
+      if asns.length > 255 then none
+      let ty ← natLe? ty 255
+      let l ← asns.mapM (natLe? · U32)
+      pure ([ty, l.length] ++ l.flatMap be32)
+  | _ => none
+
+def data? : Term → Option Bytes
+  | .atom s => asBytes? (.atom s)
+  | .list [.atom "fill", len, seed] => do
+      let len ← natLe? len 70000
+      let seed ← natLe? seed 4294967296
+      pure (fill len seed)
+  | .list (.atom "asp" :: segs) => (segs.mapM seg?).map List.flatten
+  | _ => none
+
 def triple? (t : Term) (m : Nat) : Option (Fam × Nat) :=
   match t with
   | .list [a, s, x] => do
@@ -58,7 +85,7 @@ def cap? : Term → Option Cap
       pure (.fqdn hb db)
   | .list [.atom "unk", c, b] => do
       let code ← natLe? c 255
-      let bin ← asBytes? b
+      let bin ← data? b
       pure (.unk code bin)
   | _ => none
 
@@ -76,33 +103,6 @@ def capT : Cap → Term
   | .llgr l => tag "llgr" (l.map (fun x => .list (famT x.1 ++ [nat x.2.1, nat x.2.2])))
   | .fqdn h d => tag "fqdn" [Term.bytes h, Term.bytes d]
   | .unk c b => tag "unk" [nat c, Term.bytes b]
-
-/-! attribute data -/
-
-def fill (len seed : Nat) : Bytes := (List.range len).map (fun i => (seed + 31 * i) % 251)
-
-def seg? : Term → Option Bytes
-  | .list [.atom "segr", ty, cnt, base, step] => do
-      let ty ← natLe? ty 255
-      let cnt ← natLe? cnt 255
-      let base ← natLe? base U32
-      let step ← natLe? step U32
-      pure ([ty, cnt] ++ (List.range cnt).flatMap (fun i => be32 ((base + i * step) % 4294967296)))
-  | .list (ty :: asns) => do
-      if asns.length > 255 then none
-      let ty ← natLe? ty 255
-      let l ← asns.mapM (natLe? · U32)
-      pure ([ty, l.length] ++ l.flatMap be32)
-  | _ => none
-
-def data? : Term → Option Bytes
-  | .atom s => asBytes? (.atom s)
-  | .list [.atom "fill", len, seed] => do
-      let len ← natLe? len 70000
-      let seed ← natLe? seed 4294967296
-      pure (fill len seed)
-  | .list (.atom "asp" :: segs) => (segs.mapM seg?).map List.flatten
-  | _ => none
 
 /-- `(raw FLAGS CODE DATA)`: the attribute the real decoder returns for this wire attribute. -/
 def rawAttr? (flags code : Nat) (data : Bytes) : Option Attr :=
@@ -304,6 +304,7 @@ def fpT : Fp → Term
 
 def obsT : Obs → Term
   | .panic => tag "panic" []
+  | .err => tag "err" []
   | .obs n s d fp => tag "obs" [nat n, Term.bytes s, tag "dec" (d.map dresT), tag "fp" [fpT fp]]
 
 /-! parsing observations back (for the oracle) -/
@@ -398,6 +399,7 @@ def dres? : Term → Option DRes
 
 def obs? : Term → Option Obs
   | .list [.atom "panic"] => some .panic
+  | .list [.atom "err"] => some .err
   | .list [.atom "obs", n, s, .list (.atom "dec" :: d), .list [.atom "fp", fp]] => do
       let n ← asNat? n
       let s ← asBytes? s
